@@ -109,6 +109,8 @@ def evaluate(case, stt):
         known = "kf_case_jumps_backward"
     elif gen_ssb.degenerate_branch_in_loop(c):
         known = "kf_degenerate_branch_in_loop"
+    elif gen_ssb.call_on_cycle(c):
+        known = "kf_call_on_cycle"
     elif gen_ssb.call_target_only_reachable_by_call(c):
         known = "kf_code_reachable_only_by_call"
     fails = KFList(known)
